@@ -177,11 +177,11 @@ def HistOK {τ : Type} (S : CacheOps τ) (ok : τ → CacheOp → Prop) : τ →
   | t, op :: rest => ok t op ∧ HistOK S ok (S.step t op).1 rest
 
 /-- `C` simulates `S` through `R` on operations satisfying `ok` -/
-def Sim {σ τ : Type} (C : CacheOps σ) (S : CacheOps τ) (R : σ → τ → Prop) (ok : τ → CacheOp → Prop) : Prop :=
+def CSim {σ τ : Type} (C : CacheOps σ) (S : CacheOps τ) (R : σ → τ → Prop) (ok : τ → CacheOp → Prop) : Prop :=
   ∀ s t op, R s t → ok t op → R (C.step s op).1 (S.step t op).1 ∧ outEq (C.step s op).2 (S.step t op).2
 
-theorem Sim.run {σ τ : Type} {C : CacheOps σ} {S : CacheOps τ} {R : σ → τ → Prop} {ok : τ → CacheOp → Prop}
-    (sim : Sim C S R ok) (h : List CacheOp) : ∀ s t, R s t → HistOK S ok t h →
+theorem CSim.run {σ τ : Type} {C : CacheOps σ} {S : CacheOps τ} {R : σ → τ → Prop} {ok : τ → CacheOp → Prop}
+    (sim : CSim C S R ok) (h : List CacheOp) : ∀ s t, R s t → HistOK S ok t h →
     R (C.run s h).1 (S.run t h).1 ∧ outsEq (C.run s h).2 (S.run t h).2 := by
   induction h with
   | nil => intro s t hr _; exact ⟨hr, trivial⟩
